@@ -202,12 +202,23 @@ H("C06", "c06_new_wiring", "cache::sync", WIRE, WIREB, timeout=1800, cover_tags=
 H("C08", "c08_new_wiring", "cache::sync", WIRE, WIREB, timeout=1800, cover_tags=["new"], alias_of="c06_new_wiring")
 H("C16", "c16_new_wiring", "cache::sync", WIRE, WIREB, timeout=1800, cover_tags=["new"], alias_of="c06_new_wiring")
 
+# cross-property aliases (same harness function, decided once per tree thanks to the verdict cache)
+H("C02", "c02_client_remove", "cache::sync", REM, "remove of an arbitrary key from an arbitrary quiescent state, then the queued Delete is processed: the key is unretrievable from the moment remove returns and stays so", timeout=1800, cover_tags=["client"], alias_of="c08_client_remove")
+H("C03", "c03_em_step_update", "ttl", ["ExpirationMap::try_update"], EMB + "; re-insert replaces the deadline: with a TTL the key is filed under the new deadline, without one it is no longer filed", timeout=1200, cover_tags=["update"], alias_of="c05_em_step_update")
+IDX["C03"]["assumptions"] += [ARCD, MREC]
+H("C03", "c03_store_cleanup", "store", SCF, SCB + "; an entry without TTL never becomes invisible because of time", timeout=1800, mem_gb=20, alias_of="c05_store_cleanup")
+H("C11", "c11_store_cleanup", "store", SCF, SCB + "; the stale listing models what clear() leaves behind in the expiry index", timeout=1800, mem_gb=20, alias_of="c05_store_cleanup")
+
 P("PROBE", [])
 H("PROBE", "probe_new_n0_nottl", "cache::sync", [], "probe", timeout=1200, mem_gb=20)
 H("PROBE", "probe_new_n0_ttl", "cache::sync", [], "probe", timeout=1200, mem_gb=20)
 H("PROBE", "probe_new_n1_nottl", "cache::sync", [], "probe", timeout=1200, mem_gb=20)
 for i in "1234":
     H("PROBE", "probe_part" + i, "cache::sync", [], "probe", timeout=1200, mem_gb=12)
+H("PROBE", "c06_proc_new", "cache::sync", [], "probe", timeout=3000, mem_gb=28, cover_tags=["new"])
+H("PROBE", "c06_proc_tick", "cache::sync", [], "probe", timeout=3000, mem_gb=28, cover_tags=["tick"])
+H("PROBE", "c07_add_rule_n2", "policy::sync", [], "probe", timeout=3000, mem_gb=28)
+H("PROBE", "c07_add_rule_n3", "policy::sync", [], "probe", timeout=3000, mem_gb=28)
 H("PROBE", "c01_add_real_n2", "policy::sync", [], "probe", timeout=3000, mem_gb=28)
 H("PROBE", "c01_add_real_n3", "policy::sync", [], "probe", timeout=3000, mem_gb=28)
 
